@@ -199,20 +199,32 @@ def ptOfDate (x : Nat × Nat × Nat × Nat × Nat × Nat) (us ns : Nat) (leap : 
   { year := x.1, month := x.2.1, day := x.2.2.1, hour := x.2.2.2.1, minute := x.2.2.2.2.1,
     second := x.2.2.2.2.2, microsecond := us, nanosecond := ns, leap := leap }
 
-/-- `timefromptp(p, leapyear)` for `0 ≤ p`, `leapyear` an int -/
-def timefromptp (p : Nat) (leapyear : Int) : R PT :=
-  let total : Int := (p >>> 32 : Nat)
-  match fromTimestamp total with                      -- `datetime.datetime.utcfromtimestamp(total_seconds)`
+abbrev Date := Nat × Nat × Nat × Nat × Nat × Nat
+
+/-- last part of `timefromptp`: `t = ptptime.utcfromtimestamp(total_seconds)` has been evaluated (`r`);
+    `t.replace(microsecond=int(x/1000))`, `t.nanosecond = int(x % 1000)`, `t.leapyear = leapyear` -/
+def tfpFinish (r : R Date) (x : Nat) (leapyear : Int) : R PT :=
+  match r with
   | .error e => .error e
-  | .ok (y, _) =>
-    let total' := if leapyear ≤ -1 then total - getLeapYear y else total - leapyear
-    let x := p &&& 0xffffffff
-    let u := (intDivF x 1000).toNat
-    match fromTimestamp total' with                   -- `ptptime.utcfromtimestamp(total_seconds)`
-    | .error e => .error e
-    | .ok date =>
-      if 1000000 ≤ u then .error .value               -- `t.replace(microsecond=u)`
-      else .ok (ptOfDate date u (x % 1000) (.int leapyear))
+  | .ok date =>
+    if 1000000 ≤ (intDivF x 1000).toNat then .error .value
+    else .ok (ptOfDate date (intDivF x 1000).toNat (x % 1000) (.int leapyear))
+
+/-- middle part: `t = datetime.datetime.utcfromtimestamp(total_seconds)` has been evaluated (`r0`); the leap
+    offset is subtracted and the second conversion (`conv`) is made.  (The two calendar conversions are passed
+    in as values so that proofs can rewrite them before any `match` is reduced.) -/
+def tfpOffset (r0 : R Date) (conv : Int → R Date) (T x : Nat) (leapyear : Int) : R PT :=
+  match r0 with
+  | .error e => .error e
+  | .ok date0 =>
+    tfpFinish (conv (if leapyear ≤ -1 then (T : Int) - getLeapYear date0.1 else (T : Int) - leapyear)) x leapyear
+
+/-- `timefromptp` after the two halves of the word were separated: `T = p >> 32`, `x = p & 0xffffffff` -/
+def timefromptpParts (T x : Nat) (leapyear : Int) : R PT :=
+  tfpOffset (fromTimestamp (T : Int)) fromTimestamp T x leapyear
+
+/-- `timefromptp(p, leapyear)` for `0 ≤ p`, `leapyear` an int -/
+def timefromptp (p : Nat) (leapyear : Int) : R PT := timefromptpParts (p >>> 32) (p &&& 0xffffffff) leapyear
 
 def ptOfDT (d : DT) : PT :=
   { year := d.year, month := d.month, day := d.day, hour := d.hour, minute := d.minute, second := d.second,
